@@ -11,12 +11,17 @@ Tie        : translator/gen_path.py (fail-closed golden shapes + regenerated con
                listing   LocalStorageBackend.list_files         vs list_files
                realpath  os.path.realpath (the modelled stdlib)  vs realpath
                kernel    O_PATH + /proc/self/fd (the real kernel) vs kwalk
+               scans     the directories list_files hands to os.scandir (audit hook) vs list_scans
                entrypoints  audited OS calls of the real entry points vs run_entry (outcome class + locations)
                rand-*    the same on random symlink arrangements (multi-link cycles, dangling, absolute/relative)
              over the exhaustive path grammar x root spelled directly / through a symlink / relatively.
 Oracle /   : implementation-only entry-point audit (harness/lib/pathaudit.py): every storage / read entry
 search       point x the grammar under sys.addaudithook; kernel-judged locations must lie under the
-             canonical root, the tree outside the root keeps its fingerprint, kernel-escaping paths raise.
+             canonical root (touch), the tree outside the root keeps its fingerprint (sentinel), kernel-escaping
+             paths raise (reject), a listing returns only entries under the root (listed), and every call
+             returns within its time / memory limit (runaway; harness/lib/bounded.py).  Two arrangements:
+             pathfs.standard_spec (symlink cycles included) and pathfs.acyclic_spec (cycle-free, outward /
+             inward / sibling directory links at depth >= 1 below the prefixes that get listed).
 """
 from __future__ import annotations
 
@@ -27,7 +32,7 @@ import shutil
 import tempfile
 from typing import Any, Callable, Dict, List, Optional, Sequence, Tuple
 
-from harness.lib import coqbuild, pathaudit, pathfs
+from harness.lib import bounded, coqbuild, pathaudit, pathfs
 from harness.lib.coqio import C
 from harness.lib.pathfs import Audit, Codes, coq_list
 
@@ -42,6 +47,7 @@ THEOREMS = [
     "C17_resolve_is_kernel_location",
     "C17_arrow_inside",
     "C17_listing_relative",
+    "C17_listing_scans_inside",
     "C17_entrypoints",
     "C17_fuel_sufficient",
     "C17_legacy_resolver_refuted",
@@ -57,13 +63,16 @@ MANIFEST_ENTRY = {
                   "(C17_realpath_agrees_with_kernel), so a string the kernel resolves outside the root is Err Security "
                   "(C17_kernel_outside_rejected, C17_reject_outside) and an answer is never some other file "
                   "(C17_resolve_is_kernel_location); likewise _get_arrow_path's three-way split (C17_arrow_inside); list_files yields "
-                  "only '..'-free names of files below the resolved prefix (C17_listing_relative); every entry point of the table "
+                  "only '..'-free names of files below the resolved prefix (C17_listing_relative) and scans only real, link-free "
+                  "directories at or below it -- never through a directory link, inward or outward (C17_listing_scans_inside); every entry point of the table "
                   "regenerated from the source hands the OS only its guard's result or that result's parent (C17_entrypoints); "
                   "commonpath containment is component-wise prefix (C17_commonpath_prefix); fuel = number of links suffices "
                   "(C17_fuel_sufficient); the resolver as found is refuted by a concrete tree (C17_legacy_resolver_refuted). Model tied "
                   "to the code by golden-shape / taint translation of the guards and by differential execution against real symlink "
                   "trees (resolver, arrow path, listing, realpath, kernel, entry points) over the exhaustive path grammar; "
-                  "implementation-only OS-call audit of 26 entry points searches for a failing input",
+                  "implementation-only OS-call audit of 30 entry points over two arrangements (one with symlink cycles, one cycle-free with "
+                  "outward directory links below the listed prefixes) searches for a failing input; every library call is bounded (time, "
+                  "memory, hard limit, external monitor) so that a non-terminating change is reported as a violation with its input",
     "level_note": "trusted: Coq kernel; translator/gen_path.py; the model of posixpath.realpath/commonpath/relpath and of the kernel "
                   "walk (validated on every run against CPython 3.12 and the running kernel); the audit harness (sys.addaudithook sees "
                   "Python-level OS calls only); not modelled: time-of-check/time-of-use races, hard links, mount points, the S3 "
@@ -116,11 +125,70 @@ def report(ctx, problems: List[Dict[str, Any]]) -> None:
     for pr in problems:
         key = f"{pr['rule']}:{pr['entry']}"
         what = {
-            "touch": "entry point {entry}({path!r}) [root {base}] made the OS reach {touched} outside the table root",
-            "sentinel": "entry point {entry}({path!r}) [root {base}] changed the tree outside the table root: {changed}",
-            "reject": "entry point {entry}({path!r}) [root {base}] addresses a location outside the root but returned normally: {result}",
-        }[pr["rule"]].format(**{"touched": None, "changed": None, "result": None, **pr})
+            "touch": "entry point {entry}({path!r}) [root {base}, {arrangement}] made the OS reach {touched} outside the table root",
+            "sentinel": "entry point {entry}({path!r}) [root {base}, {arrangement}] changed the tree outside the table root: {changed}",
+            "reject": "entry point {entry}({path!r}) [root {base}, {arrangement}] addresses a location outside the root but returned normally: {result}",
+            "listed": "entry point {entry}({path!r}) [root {base}, {arrangement}] returned names of files that are not under the table root: {foreign}",
+            "runaway": "entry point {entry}({path!r}) [root {base}, {arrangement}] did not return: {why} ({os_calls_before_the_limit} audited OS calls so far)",
+        }[pr["rule"]].format(**{"touched": None, "changed": None, "result": None, "foreign": None, "why": None,
+                                "os_calls_before_the_limit": None, "arrangement": "standard_spec", **pr})
         ctx.violation(key, what, pr)
+
+
+class Breaker:
+    """After `limit` runaways of one entry point the remaining strings for it are skipped: every further case would
+    cost a full time limit, and the violation is already reported with a concrete input."""
+
+    def __init__(self, limit: int = 2):
+        self.limit = limit
+        self.count: collections.Counter = collections.Counter()
+        self.skipped: collections.Counter = collections.Counter()
+
+    def tripped(self, entry: str) -> bool:
+        if self.count[entry] >= self.limit:
+            self.skipped[entry] += 1
+            return True
+        return False
+
+    def note(self, entry: str, outcome: str) -> None:
+        if outcome == "runaway":
+            self.count[entry] += 1
+
+
+def install_guard(ctx) -> bounded.Guard:
+    """Every library call of this check runs under harness/lib/bounded.py: soft time limit, memory limit, and a hard
+    limit after which the violation is recorded, the evidence written and the process ended."""
+    g = bounded.get_guard()
+    g.soft_s, g.hard_s, g.mem_mb = (2.5, 45.0, 1500.0)
+
+    def on_hard(label: str, payload: Any, why: str) -> None:
+        case = dict(payload) if isinstance(payload, dict) else {"case": repr(payload)}
+        case.update({"rule": "runaway", "why": why})
+        ctx.violation(f"runaway:{case.get('entry', 'library-call')}", f"library call {label} {why}; the check was ended", case)
+        ctx.finish(LEVEL)
+
+    g.on_hard = on_hard
+
+    def report_from_monitor(label: str, payload: Any, why: str) -> None:
+        # runs in the forked monitor process: plain files and stdout only
+        import json
+        from harness.lib import common
+        case = dict(payload) if isinstance(payload, dict) else {"case": repr(payload)}
+        case.update({"rule": "runaway", "why": why})
+        os.makedirs(common.REPLAY_DIR, exist_ok=True)
+        path = os.path.join(common.REPLAY_DIR, f"C17-runaway_{str(case.get('entry', 'library-call')).replace(':', '_')}.json")
+        with open(path, "w") as f:
+            json.dump({"property": "C17", "tier": ctx.tier, "seed": ctx.seed, "key": f"runaway:{case.get('entry', 'library-call')}", "kind": "concrete",
+                       "what": f"library call {label} {why}; the check was killed by its monitor", "case": case}, f, indent=1)
+        with open(os.path.join(common.EVIDENCE_DIR, "C17.json"), "w") as f:
+            json.dump({"property_id": "C17", "tier": ctx.tier, "seed": ctx.seed, "level": "other", "violations": 1,
+                       "coverage": {"explanation": "check killed by its monitor: a library call neither returned nor could be interrupted", "replay": path},
+                       "assumptions": [], "wall_s": round(__import__("time").time() - ctx.t0, 1)}, f, indent=1)
+        print(f"VIOLATION property=C17 replay={path}", flush=True)
+        print(f"  oracle: runaway - library call {label} {why}", flush=True)
+
+    g.start_external(report_from_monitor)
+    return g
 
 
 def oracle_storage(ctx, strings: Sequence[str]) -> Tuple[str, List[Any]]:
@@ -132,13 +200,17 @@ def oracle_storage(ctx, strings: Sequence[str]) -> Tuple[str, List[Any]]:
     outcomes: collections.Counter = collections.Counter()
     n = 0
     shrunk: set = set()          # shrink only the first failure of each (entry point, root spelling)
+    brk = Breaker()
     bases = [("direct", wsp.root), ("symlink", wsp.lnroot)]
     for base_kind, base in bases:
         b = LocalStorageBackend(base)
         for name, fn in pathaudit.storage_entry_points().items():
             for p in strings:
+                if brk.tripped(name):
+                    continue
                 outcome, problems = pathaudit.run_case(wsp, judge, audit, name, lambda: fn(b, p), p, base_kind, False,
                                                        call=(lambda s_, fn=fn, b=b: (lambda: fn(b, s_))) if (name, base_kind) not in shrunk else None)
+                brk.note(name, outcome)
                 if problems:
                     shrunk.add((name, base_kind))
                 outcomes[f"{name}:{outcome}"] += 1
@@ -152,8 +224,11 @@ def oracle_storage(ctx, strings: Sequence[str]) -> Tuple[str, List[Any]]:
         dfm = pathaudit.make_dfm(base)
         for name, fn in pathaudit.dfm_entry_points().items():
             for p in strings:
+                if brk.tripped(name):
+                    continue
                 outcome, problems = pathaudit.run_case(wsp, judge, audit, name, lambda: fn(dfm, p), p, base_kind, True,
                                                        call=(lambda s_, fn=fn, dfm=dfm: (lambda: fn(dfm, s_))) if (name, base_kind) not in shrunk else None)
+                brk.note(name, outcome)
                 if problems:
                     shrunk.add((name, base_kind))
                 outcomes[f"{name}:{outcome}"] += 1
@@ -165,8 +240,44 @@ def oracle_storage(ctx, strings: Sequence[str]) -> Tuple[str, List[Any]]:
     ctx.stats["audit_storage_calls"] = n
     ctx.stats["audit_dfm_calls"] = dfm_n
     ctx.stats["audit_outcomes_storage"] = dict(sorted(outcomes.items()))
+    ctx.stats["audit_skipped_after_runaway"] = dict(brk.skipped)
     shutil.rmtree(wsp.ws, ignore_errors=True)
     return wsp.ws, obs
+
+
+def oracle_acyclic(ctx, depth: int) -> None:
+    """The cycle-free arrangement (pathfs.acyclic_spec): outward / inward / sibling DIRECTORY links at depth >= 1 below the
+    prefixes that are listed.  Every storage entry point x every prefix spelling over that tree's components; what a
+    listing scans and what it returns are both judged (rules touch, listed)."""
+    wsp = pathaudit.Workspace(os.path.join(ctx.scratch, "ws-acyclic"), spec_fn=pathfs.acyclic_spec)
+    judge = pathaudit.Judge(wsp)
+    audit = Audit.get()
+    from datashard.storage_backend import LocalStorageBackend
+    strings = ["", ".", "/"] + pathfs.grammar(depth, pathfs.ACYCLIC_COMPONENTS) + \
+        [wsp.root, wsp.root + "/data", wsp.lnroot + "/data", wsp.ws + "/out", "data/part/deep/deeper.bin", "data/ext/nested/deeper.bin", "data/hot/a.parquet"]
+    outcomes: collections.Counter = collections.Counter()
+    brk = Breaker()
+    shrunk: set = set()
+    n = 0
+    for base_kind, base in (("direct", wsp.root), ("symlink", wsp.lnroot)):
+        b = LocalStorageBackend(base)
+        for name, fn in pathaudit.storage_entry_points().items():
+            # listings first-class: all strings; the other entry points take every third string
+            for p in (strings if name in ("list_files", "delete_file", "read_file", "exists") else strings[::3]):
+                if brk.tripped(name):
+                    continue
+                outcome, problems = pathaudit.run_case(wsp, judge, audit, name, lambda: fn(b, p), p, base_kind, False,
+                                                       call=(lambda s_, fn=fn, b=b: (lambda: fn(b, s_))) if (name, base_kind) not in shrunk else None)
+                brk.note(name, outcome)
+                if problems:
+                    shrunk.add((name, base_kind))
+                outcomes[f"{name}:{outcome}"] += 1
+                n += 1
+                ctx.count(1, ("acyclic", name, base_kind, p))
+                report(ctx, problems)
+    ctx.stats["audit_acyclic_calls"] = n
+    ctx.stats["audit_outcomes_acyclic_list_files"] = {k: v for k, v in sorted(outcomes.items()) if k.startswith("list_files")}
+    shutil.rmtree(wsp.ws, ignore_errors=True)
 
 
 MODEL_ENTRY = {"read_file": "EpRead", "read_json": "EpRead", "open_file": "EpOpen", "open_seekable": "EpOpenSeekable", "write_file": "EpWrite",
@@ -225,6 +336,8 @@ def corr_entries(ctx, ws: str, obs: List[Any], stride: int) -> None:
 
 TABLE_ENTRIES = ["scan:manifest_entry", "scan:manifest_entry_nochecksum", "scan:manifest_path", "scan:manifest_list_path",
                  "row_count:manifest_path", "gc:marker_payload", "gc:listing", "gc:manifest_path", "append_files", "delete_files+rollback"]
+# untampered table operations: their inputs are the ARRANGEMENT of the root, not a string
+PLAIN_TABLE_ENTRIES = ["plain:garbage_collect", "plain:scan", "plain:append_records+gc", "plain:open+row_count"]
 
 
 def table_call(wsp: pathaudit.Workspace, base: str, entry: str, p: str) -> Callable[[], Any]:
@@ -233,6 +346,16 @@ def table_call(wsp: pathaudit.Workspace, base: str, entry: str, p: str) -> Calla
 
     def go() -> Any:
         kind, _, what = entry.partition(":")
+        if kind == "plain":
+            t = load_table(base)
+            if what == "garbage_collect":
+                return t.garbage_collect(grace_period_ms=0)
+            if what == "scan":
+                return len(t.scan())
+            if what == "append_records+gc":
+                t.append_records([{"k": 3}])
+                return load_table(base).garbage_collect(grace_period_ms=0)
+            return t.row_count()
         if kind == "scan":
             pathaudit.tamper(wsp.root, what, p)
             return load_table(base).scan()
@@ -269,30 +392,48 @@ def table_call(wsp: pathaudit.Workspace, base: str, entry: str, p: str) -> Calla
 
 
 def oracle_table(ctx, strings: Sequence[str]) -> None:
-    wsp = pathaudit.Workspace(os.path.join(ctx.scratch, "ws-table"), with_table=True)
-    judge = pathaudit.Judge(wsp)
-    audit = Audit.get()
     outcomes: collections.Counter = collections.Counter()
     n = 0
-    shrunk: set = set()
-    for base_kind, base in (("direct", wsp.root), ("symlink", wsp.lnroot)):
-        for entry in TABLE_ENTRIES:
-            # the collector never resolves a marker payload (it only protects that name) and treats listed /
-            # rollback paths best-effort: for those only the touch and sentinel rules apply
-            absolute_capable = entry.startswith(("scan", "row_count", "append"))
-            for p in strings:
-                outcome, problems = pathaudit.run_case(wsp, judge, audit, entry, table_call(wsp, base, entry, p), p, base_kind, absolute_capable,
-                                                       call=(lambda s_, base=base, entry=entry: table_call(wsp, base, entry, s_)) if (entry, base_kind) not in shrunk else None,
-                                                       ignore_rules=("reject",) if entry.startswith(("gc:", "delete_files")) else ())
-                if problems:
-                    shrunk.add((entry, base_kind))
+    brk = Breaker()
+    audit = Audit.get()
+    for arrangement, spec_fn in (("standard", pathfs.standard_spec), ("acyclic", pathfs.acyclic_spec)):
+        wsp = pathaudit.Workspace(os.path.join(ctx.scratch, "ws-table-" + arrangement), with_table=True, spec_fn=spec_fn)
+        judge = pathaudit.Judge(wsp)
+        shrunk: set = set()
+        for base_kind, base in (("direct", wsp.root), ("symlink", wsp.lnroot)):
+            for entry in PLAIN_TABLE_ENTRIES:
+                if brk.tripped(entry):
+                    continue
+                outcome, problems = pathaudit.run_case(wsp, judge, audit, entry, table_call(wsp, base, entry, "-"), "-", base_kind, False,
+                                                       ignore_rules=("reject",))
+                brk.note(entry, outcome)
                 outcomes[f"{entry}:{outcome}"] += 1
                 n += 1
-                ctx.count(1, ("table", entry, base_kind, p))
+                ctx.count(1, ("table", arrangement, entry, base_kind))
                 report(ctx, problems)
+            if arrangement != "standard":
+                continue
+            for entry in TABLE_ENTRIES:
+                # the collector never resolves a marker payload (it only protects that name) and treats listed /
+                # rollback paths best-effort: for those only the touch and sentinel rules apply
+                absolute_capable = entry.startswith(("scan", "row_count", "append"))
+                for p in strings:
+                    if brk.tripped(entry):
+                        continue
+                    outcome, problems = pathaudit.run_case(wsp, judge, audit, entry, table_call(wsp, base, entry, p), p, base_kind, absolute_capable,
+                                                           call=(lambda s_, base=base, entry=entry: table_call(wsp, base, entry, s_)) if (entry, base_kind) not in shrunk else None,
+                                                           ignore_rules=("reject",) if entry.startswith(("gc:", "delete_files")) else ())
+                    brk.note(entry, outcome)
+                    if problems:
+                        shrunk.add((entry, base_kind))
+                    outcomes[f"{entry}:{outcome}"] += 1
+                    n += 1
+                    ctx.count(1, ("table", entry, base_kind, p))
+                    report(ctx, problems)
+        shutil.rmtree(wsp.ws, ignore_errors=True)
     ctx.stats["audit_table_calls"] = n
     ctx.stats["audit_outcomes_table"] = dict(sorted(outcomes.items()))
-    shutil.rmtree(wsp.ws, ignore_errors=True)
+    ctx.stats["audit_table_skipped_after_runaway"] = dict(brk.skipped)
 
 
 STRACE_DRIVER = r"""
@@ -310,10 +451,17 @@ b = LocalStorageBackend(wsp.lnroot)
 def mark(n):
     try: os.mkdir("/proc/C17-MARK-" + n)
     except OSError: pass
+from harness.lib import bounded
+import resource
+resource.setrlimit(resource.RLIMIT_AS, (6 << 30, 6 << 30))       # a runaway allocation fails here, not on the host
+guard = bounded.get_guard()
+guard.soft_s, guard.hard_s = 5.0, 60.0
 def call(f):
     mark("BEGIN")                      # only the library's own system calls lie between BEGIN and END
-    try: f()
-    except Exception: pass
+    try:
+        status, val = guard.run("strace-driver call", None, f)
+        if status == "runaway":
+            print("RUNAWAY", val, flush=True)
     finally: mark("END")
 strings = ["data/f.parquet", "/data/f.parquet", "ln_in/f.parquet", "ln_out/secret.txt", "../tbl2/secret.txt", "ln_up/tbl2/secret.txt",
            "ln_loop/../ln_out/secret.txt", "ln_loop/../data/ln_file", wsp.ws + "/out/data/f.parquet", wsp.ws + "/wh/tbl/data/f.parquet",
@@ -347,8 +495,16 @@ def oracle_strace(ctx) -> None:
     with open(drv, "w") as f:
         f.write(STRACE_DRIVER)
     calls = "open,openat,creat,unlink,unlinkat,rename,renameat,renameat2,mkdir,mkdirat,rmdir,getdents64,symlink,symlinkat,link,linkat,truncate"
-    p = subprocess.run(["strace", "-f", "-qq", "-e", "trace=" + calls, "-o", out, os.sys.executable, drv, ws, coqbuild.VERIF],
-                       capture_output=True, text=True, timeout=600)
+    try:
+        p = subprocess.run(["strace", "-f", "-qq", "-e", "trace=" + calls, "-o", out, os.sys.executable, drv, ws, coqbuild.VERIF],
+                           capture_output=True, text=True, timeout=300)
+    except subprocess.TimeoutExpired:
+        ctx.violation("runaway:strace-driver", "the strace-traced run of the entry points did not finish within 300 s",
+                      {"rule": "strace", "why": "driver timeout"})
+        return
+    if "RUNAWAY" in p.stdout:
+        ctx.violation("runaway:strace-driver", "a library call in the strace-traced run exceeded its time limit: " + p.stdout[-300:],
+                      {"rule": "strace", "why": p.stdout[-300:]})
     if not os.path.exists(out):
         ctx.stats["strace"] = f"failed: {p.stderr[-300:]}"
         return
@@ -396,27 +552,52 @@ def res_loc(codes: Codes, path: str) -> C:
     return C("Ok", codes.loc(path))
 
 
-def impl_resolve(fn: Callable[[str], str], codes: Codes, p: str) -> Any:
-    try:
-        return res_loc(codes, fn(p))
-    except ValueError as e:
-        if "Security Error" in str(e):
-            return C("Err", C("Security"))
-        return ("other", type(e).__name__, str(e)[:120])
-    except Exception as e:                   # noqa: BLE001 - outcome is data
-        return ("other", type(e).__name__, str(e)[:120])
+class ImplCalls:
+    """Bounded calls of the real resolver / listing for the correspondences; a runaway is a violation with its input."""
 
+    def __init__(self, ctx, arrangement: str, ws: str):
+        self.ctx, self.arrangement, self.ws = ctx, arrangement, ws
+        self.brk = Breaker()
+        self.guard = bounded.get_guard()
+        self.audit = Audit.get()
 
-def impl_list(b: Any, codes: Codes, p: str) -> Any:
-    try:
-        out = b.list_files(p)
-    except ValueError as e:
-        if "Security Error" in str(e):
-            return C("Err", C("Security"))
-        return ("other", type(e).__name__, str(e)[:120])
-    except Exception as e:                   # noqa: BLE001
-        return ("other", type(e).__name__, str(e)[:120])
-    return C("Ok", sorted(codes.pstr(r) for r in out))
+    def _bounded(self, entry: str, base_kind: str, p: str, fn: Callable[[], Any], extra: Optional[Dict[str, Any]] = None) -> Tuple[str, Any]:
+        if self.brk.tripped(entry):
+            return "skipped", None
+        case = {"rule": "runaway", "entry": entry, "path": p, "base": base_kind, "workspace": self.ws, "arrangement": self.arrangement}
+        case.update(extra or {})
+        status, val = self.guard.run(f"{entry}({p!r})", case, fn)
+        if status == "runaway":
+            self.audit.on = False
+            self.brk.note(entry, "runaway")
+            case["why"] = val
+            self.ctx.violation(f"runaway:{entry}", f"{entry}({p!r}) [root {base_kind}, {self.arrangement}] did not return: {val}", case)
+        return status, val
+
+    def resolve(self, entry: str, base_kind: str, fn: Callable[[str], str], codes: Codes, p: str, extra: Optional[Dict[str, Any]] = None) -> Any:
+        status, val = self._bounded(entry, base_kind, p, lambda: fn(p), extra)
+        if status == "ok":
+            return res_loc(codes, val)
+        if status == "raised":
+            if isinstance(val, ValueError) and "Security Error" in str(val):
+                return C("Err", C("Security"))
+            return ("other", type(val).__name__, str(val)[:120])
+        return ("other", status, "")
+
+    def listing(self, base_kind: str, b: Any, codes: Codes, p: str, extra: Optional[Dict[str, Any]] = None) -> Tuple[Any, Any]:
+        """(what list_files returns, which directories it scanned) -- the latter from the audit hook: os.scandir events
+        whose kernel location is a directory."""
+        status, val = self._bounded("list_files", base_kind, p, lambda: self.audit.record(lambda: b.list_files(p)), extra)
+        if status == "ok":
+            res, exc, events = val
+            scans = sorted({tuple(codes.loc(tgt)) for ev, _p, tgt, _c in events if ev in ("os.scandir", "os.listdir") and tgt and os.path.isdir(tgt)})
+            scans_v = C("Ok", [list(x) for x in scans])
+            if exc is None:
+                return C("Ok", sorted(codes.pstr(r) for r in res)), scans_v
+            if isinstance(exc, ValueError) and "Security Error" in str(exc):
+                return C("Err", C("Security")), (C("Err", C("Security")) if not scans else scans_v)
+            return ("other", type(exc).__name__, str(exc)[:120]), scans_v
+        return ("other", status, ""), ("other", status, "")
 
 
 def norm_model(v: Any) -> Any:
@@ -425,24 +606,34 @@ def norm_model(v: Any) -> Any:
     return v
 
 
-def corr_paths(ctx, strings: Sequence[str]) -> None:
-    """_resolve_path / _get_arrow_path / list_files / os.path.realpath / the kernel  vs  the model, same tree."""
+def corr_paths(ctx, strings: Sequence[str], arrangement: str = "standard") -> None:
+    """_resolve_path / _get_arrow_path / list_files (result AND scanned directories) / os.path.realpath / the kernel
+    vs  the model, on the same tree."""
     from datashard.storage_backend import LocalStorageBackend
     ws = os.path.realpath(tempfile.mkdtemp(prefix="ws-corr-", dir=ctx.scratch))
+    root = os.path.join(ws, "wh", pathfs.ROOT_NAME)
+    wh = os.path.join(ws, "wh")
     uniq: Dict[str, None] = {}
-    for s_ in list(strings) + pathfs.absolute_spellings(ws) + pathfs.loop_spellings() + \
+    if arrangement == "standard":
+        spec = pathfs.standard_spec(ws)
+        extra = pathfs.absolute_spellings(ws) + pathfs.loop_spellings() + \
             ["", ".", "/", "//", "data/..", "a//b", "data//f.parquet", "ln_loop//" + ws.lstrip("/") + "/out/secret.txt",
-             "ln_loop//" + ws.lstrip("/") + "/wh/tbl/x"]:
+             "ln_loop//" + ws.lstrip("/") + "/wh/tbl/x"]
+        bases = [("direct", root, wh), ("symlink", os.path.join(wh, "lnroot"), wh), ("relative", pathfs.ROOT_NAME, wh),
+                 ("relative-link-slash", "lnroot/", wh), ("dotdot", root + "/data/..", ws), ("via-loop", root + "/ln_loop/../ln_up/" + pathfs.ROOT_NAME, ws)]
+    else:
+        spec = pathfs.acyclic_spec(ws)
+        extra = ["", ".", "/", root, root + "/data", root + "/data/ext", ws + "/out", ws + "/out/nested/deeper.bin", "data/part/deep/deeper.bin",
+                 "data/ext/nested/deeper.bin", "data/hot/a.parquet", "data/sibl/secret.txt", "data/ln_file", "/data/ext/secret.txt"]
+        bases = [("direct", root, wh), ("symlink", os.path.join(wh, "lnroot"), wh), ("relative", pathfs.ROOT_NAME, wh),
+                 ("through-outward-link", root + "/data/ext/../../" + pathfs.ROOT_NAME, ws)]
+    for s_ in list(strings) + extra:
         uniq.setdefault(s_)
     strings = list(uniq)
-    spec = pathfs.standard_spec(ws)
     pathfs.materialise(ws, spec)
     codes = Codes()
     tree = pathfs.spec_to_coq(ws, spec, codes)
-    root = os.path.join(ws, "wh", pathfs.ROOT_NAME)
-    wh = os.path.join(ws, "wh")
-    bases = [("direct", root, wh), ("symlink", os.path.join(wh, "lnroot"), wh), ("relative", pathfs.ROOT_NAME, wh),
-             ("relative-link-slash", "lnroot/", wh), ("dotdot", root + "/data/..", ws), ("via-loop", root + "/ln_loop/../ln_up/" + pathfs.ROOT_NAME, ws)]
+    calls = ImplCalls(ctx, arrangement + "_spec", ws)
     old_cwd = os.getcwd()
     exprs: List[str] = []
     impl: List[Tuple[Any, ...]] = []
@@ -462,23 +653,28 @@ def corr_paths(ctx, strings: Sequence[str]) -> None:
                 joined = os.path.join(base, p.lstrip("/")) if p.startswith("/") else os.path.join(base, p)
                 rp = res_loc(codes, os.path.realpath(joined))
                 kl = pathfs.kernel_locate(joined)
-                impl.append((impl_resolve(b._resolve_path, codes, p), impl_resolve(dfm._get_arrow_path, codes, p), impl_list(b, codes, p), rp,
-                             None if kl is None else codes.loc(kl)))
+                listed, scanned = calls.listing(bk, b, codes, p)
+                impl.append((calls.resolve("_resolve_path", bk, b._resolve_path, codes, p), calls.resolve("_get_arrow_path", bk, dfm._get_arrow_path, codes, p),
+                             listed, rp, None if kl is None else codes.loc(kl), scanned))
                 exprs.append(f"(resolve {FUEL} T {cwd_c} {base_c} {pc}, arrow_path {FUEL} T {cwd_c} gen_table_dirs {base_c} {pc}, "
                              f"list_files {FUEL} {KFUEL} T {cwd_c} {base_c} {pc}, realpath {FUEL} T {cwd_c} (join_for_resolve {base_c} {pc}), "
-                             f"match kwalk {KFUEL} T [] (tl (absolutize {cwd_c} (join_for_resolve {base_c} {pc}))) with Ok l => Some l | Err _ => None end)")
+                             f"match kwalk {KFUEL} T [] (tl (absolutize {cwd_c} (join_for_resolve {base_c} {pc}))) with Ok l => Some l | Err _ => None end, "
+                             f"list_scans {FUEL} T {cwd_c} {base_c} {pc})")
                 meta.append((bk, p))
     finally:
         os.chdir(old_cwd)
     got = coqbuild.coq_eval(REQ, exprs, preamble=f"Definition T : tree := {tree}.", chunk=300)
-    names = ["resolve", "arrow", "listing", "realpath", "kernel"]
+    names = ["resolve", "arrow", "listing", "realpath", "kernel", "scans"]
+    sfx = "" if arrangement == "standard" else "-" + arrangement
     bad: Dict[str, List[Any]] = {n: [] for n in names}
     kinds: collections.Counter = collections.Counter()
     for (bk, p), im, g in zip(meta, impl, got):
-        ctx.count(1, ("corr", bk, p))
+        ctx.count(1, ("corr", arrangement, bk, p))
         for i, n in enumerate(names):
             gv = norm_model(g[i])
             iv = im[i]
+            if isinstance(iv, tuple) and len(iv) == 3 and iv[1] == "skipped":
+                continue                     # not run: this entry point ran away before (reported with its input)
             if n == "kernel":
                 gv = gv.x if hasattr(gv, "x") else gv
                 # the model has no ENOTDIR on 'file/' with a trailing slash and no O_PATH on a dangling tail; compare when the kernel resolves
@@ -487,12 +683,12 @@ def corr_paths(ctx, strings: Sequence[str]) -> None:
             if n in ("resolve", "arrow"):
                 kinds[f"{n}:{iv.name + ':' + (iv.args[0].name if iv.name == 'Err' else 'path') if isinstance(iv, C) else iv[1]}"] += 1
             if gv != iv:
-                bad[n].append({"base": bk, "path": p, "impl": repr(iv)[:300], "model": repr(gv)[:300]})
+                bad[n].append({"base": bk, "path": p, "arrangement": arrangement, "impl": repr(iv)[:300], "model": repr(gv)[:300]})
     for n in names:
-        ctx.correspondence(n, len(meta), bad[n])
-    ctx.stats["corr_cases_per_function"] = len(meta)
-    ctx.stats["corr_outcome_kinds"] = dict(sorted(kinds.items()))
-    ctx.sample({"corr_case": {"base": meta[0][0], "path": meta[0][1], "impl": repr(impl[0])[:300]}})
+        ctx.correspondence(n + sfx, len(meta), bad[n])
+    ctx.stats["corr_cases_per_function" + sfx] = len(meta)
+    ctx.stats["corr_outcome_kinds" + sfx] = dict(sorted(kinds.items()))
+    ctx.sample({"corr_case": {"arrangement": arrangement, "base": meta[0][0], "path": meta[0][1], "impl": repr(impl[0])[:300]}})
     shutil.rmtree(ws, ignore_errors=True)
 
 
@@ -532,6 +728,7 @@ def corr_random_trees(ctx, ntrees: int, nstrings: int) -> None:
     impl: List[Tuple[Any, ...]] = []
     meta: List[Dict[str, Any]] = []
     top = os.path.realpath(tempfile.mkdtemp(prefix="ws-rand-", dir=ctx.scratch))
+    calls = ImplCalls(ctx, "random_spec", top)
     comps = ["a", "b", "c", "data", "..", ".", "", "s"]
     for ti in range(ntrees):
         ws = os.path.join(top, f"t{ti}")
@@ -546,6 +743,8 @@ def corr_random_trees(ctx, ntrees: int, nstrings: int) -> None:
         b = LocalStorageBackend(base)
         cwd_c = coq_list(codes.loc(ws))
         base_c = coq_list(codes.pstr(base))
+        tree_json = [(r, k, (t.replace(ws, "<ws>") if k == "link" else None)) for r, k, t in spec]
+        calls.ws = ws
         for _ in range(nstrings):
             p = "/".join(rng.choice(comps) for _ in range(rng.randrange(1, 6)))
             if rng.random() < 0.2:
@@ -553,19 +752,24 @@ def corr_random_trees(ctx, ntrees: int, nstrings: int) -> None:
             pc = coq_list(codes.pstr(p))
             joined = os.path.join(base, p.lstrip("/")) if p.startswith("/") else os.path.join(base, p)
             kl = pathfs.kernel_locate(joined)
-            impl.append((impl_resolve(b._resolve_path, codes, p), res_loc(codes, os.path.realpath(joined)), impl_list(b, codes, p),
-                         None if kl is None else codes.loc(kl)))
+            extra = {"tree": tree_json, "rule": "runaway"}
+            listed, scanned = calls.listing("random-tree", b, codes, p, extra)
+            impl.append((calls.resolve("_resolve_path", "random-tree", b._resolve_path, codes, p, extra), res_loc(codes, os.path.realpath(joined)), listed,
+                         None if kl is None else codes.loc(kl), scanned))
             exprs.append(f"let T := {tree} in (resolve {FUEL} T {cwd_c} {base_c} {pc}, realpath {FUEL} T {cwd_c} (join_for_resolve {base_c} {pc}), "
                          f"list_files {FUEL} {KFUEL} T {cwd_c} {base_c} {pc}, "
-                         f"match kwalk {KFUEL} T [] (tl (absolutize {cwd_c} (join_for_resolve {base_c} {pc}))) with Ok l => Some l | Err _ => None end)")
-            meta.append({"tree": [(r, k, (t if k == "link" else None)) for r, k, t in spec], "path": p})
+                         f"match kwalk {KFUEL} T [] (tl (absolutize {cwd_c} (join_for_resolve {base_c} {pc}))) with Ok l => Some l | Err _ => None end, "
+                         f"list_scans {FUEL} T {cwd_c} {base_c} {pc})")
+            meta.append({"tree": tree_json, "path": p})
     got = coqbuild.coq_eval(REQ, exprs, chunk=200)
-    bad: Dict[str, List[Any]] = {"rand-resolve": [], "rand-realpath": [], "rand-listing": [], "rand-kernel": []}
+    bad: Dict[str, List[Any]] = {"rand-resolve": [], "rand-realpath": [], "rand-listing": [], "rand-kernel": [], "rand-scans": []}
     for m, im, g in zip(meta, impl, got):
         ctx.count(1, ("rand", repr(m)))
-        for i, n in enumerate(["rand-resolve", "rand-realpath", "rand-listing", "rand-kernel"]):
+        for i, n in enumerate(["rand-resolve", "rand-realpath", "rand-listing", "rand-kernel", "rand-scans"]):
             gv = norm_model(g[i])
             iv = im[i]
+            if isinstance(iv, tuple) and len(iv) == 3 and iv[1] == "skipped":
+                continue
             if n == "rand-kernel":
                 gv = gv.x if hasattr(gv, "x") else gv
                 if iv is None:
@@ -585,8 +789,11 @@ def run(ctx) -> None:
                 "3 (quick: depth 2 exhaustive + seeded sample of depth 3; thorough: depth 4 sample + depth 3 exhaustive), with and "
                 "without a leading '/', plus true absolute spellings of inside/outside targets and loop-driving spellings "
                 "(self loop, two-link cycle), x root direct / through a symlink (/ relative, via '..', via a loop for the resolver "
-                "correspondence) x 13 storage + 3 data-file + 10 table-level entry points; a case is distinct by (entry point, root "
-                "spelling, string)")
+                "correspondence) x 13 storage + 3 data-file + 10 table-level entry points; a second, cycle-free arrangement "
+                "(outward / inward / sibling DIRECTORY links at depth >= 1 below listed prefixes) x every storage entry point x its own "
+                "prefix grammar, and untampered table operations (garbage_collect, scan, append+gc, row_count) over both arrangements; "
+                "every library call runs under a time limit, a memory limit and a hard limit (harness/lib/bounded.py); a case is "
+                "distinct by (arrangement, entry point, root spelling, string)")
     ctx.trusted_base += [
         "translator/gen_path.py (golden AST shapes of canonical_path, _resolve_path, _get_arrow_path, list_files' guard, write guards; regenerated constants)",
         "Model/Path.v's rendering of CPython 3.12 posixpath.realpath/_joinrealpath/commonpath/relpath/join and of the kernel path walk "
@@ -600,29 +807,44 @@ def run(ctx) -> None:
         "os.getcwd() is canonical; POSIX path semantics (no drives)",
         "hard links and mount points are outside the model",
     ]
+    guard = install_guard(ctx)          # forks the monitor: before pyarrow & co. start threads
     warm_up()
     ok = ctx.proofs(THEOREMS, gen_files=GEN_FILES)
     ctx.allow_axioms([])
 
     quick = ctx.tier == "quick"
+    stages: Dict[str, float] = {}
+    import time as _time
+
+    def staged(name: str, fn: Callable[[], Any]) -> Any:
+        t0, c0 = _time.time(), _time.process_time()
+        try:
+            return fn()
+        finally:
+            stages[name] = [round(_time.time() - t0, 1), round(_time.process_time() - c0, 1)]     # wall, CPU of this process
+            ctx.stats["stage_seconds"] = stages
     ws_probe = os.path.realpath(ctx.scratch)
-    audit_strings = strings_for(ctx, os.path.join(ws_probe, "ws-storage"), 3 if quick else 4, 250 if quick else 3500)
-    obs_ws, obs = oracle_storage(ctx, audit_strings)
-    table_strings = strings_for(ctx, os.path.join(ws_probe, "ws-table"), 3, 0 if quick else 600)
+    audit_strings = strings_for(ctx, os.path.join(ws_probe, "ws-storage"), 3 if quick else 4, 120 if quick else 2500)
+    obs_ws, obs = staged('audit_storage', lambda: oracle_storage(ctx, audit_strings))
+    table_strings = strings_for(ctx, os.path.join(ws_probe, "ws-table"), 3, 0 if quick else 400)
     if quick:
-        table_strings = table_strings[::3]
-    oracle_table(ctx, table_strings)
-    oracle_strace(ctx)
+        table_strings = table_strings[::4]
+    staged('audit_acyclic', lambda: oracle_acyclic(ctx, 2 if quick else 3))
+    staged('audit_table', lambda: oracle_table(ctx, table_strings))
+    staged('strace', lambda: oracle_strace(ctx))
     ctx.stats["audit_strings_storage"] = len(audit_strings)
     ctx.stats["audit_strings_table"] = len(table_strings)
 
     try:
         corr_strings = pathfs.grammar(3) if quick else pathfs.grammar(4)
-        corr_paths(ctx, corr_strings)
-        corr_entries(ctx, obs_ws, obs, 2 if quick else 3)
-        corr_random_trees(ctx, 60 if quick else 600, 25)
+        staged('corr_standard', lambda: corr_paths(ctx, corr_strings))
+        staged('corr_acyclic', lambda: corr_paths(ctx, pathfs.grammar(2 if quick else 3, pathfs.ACYCLIC_COMPONENTS), arrangement="acyclic"))
+        staged('corr_entries', lambda: corr_entries(ctx, obs_ws, obs, 3))
+        staged('corr_random', lambda: corr_random_trees(ctx, 60 if quick else 600, 25))
     except RuntimeError as e:
         ctx.proof_problems.append("model evaluation failed: " + str(e)[:800])
+    ctx.stats["bounded_calls"] = {"soft_limit_s": guard.soft_s, "hard_limit_s": guard.hard_s, "memory_limit_mb": guard.mem_mb,
+                                  "runaways": guard.runaways, "slowest_call_s": round(guard.slowest[0], 2), "slowest_call": guard.slowest[1][:120]}
 
 
 def replay(ctx, payload) -> int:
@@ -640,17 +862,22 @@ def replay(ctx, payload) -> int:
     if not {"entry", "path", "base"} <= set(case):
         print("replay: payload names no concrete call (broken proof / correspondence): re-run ./bin/check C17 thorough")
         return 2
+    install_guard(ctx)
     warm_up()
     entry, p, base_kind = case["entry"], case["path"], case["base"]
-    table_level = entry in TABLE_ENTRIES
-    wsp = pathaudit.Workspace(os.path.join(ctx.scratch, "ws-replay"), with_table=table_level)
+    if case.get("tree"):
+        return replay_random_tree(ctx, case)
+    entry = {"_resolve_path": "exists", "_get_arrow_path": "open_parquet_source"}.get(entry, entry)   # correspondence runaways: nearest entry point
+    table_level = entry in TABLE_ENTRIES or entry in PLAIN_TABLE_ENTRIES
+    spec_fn = pathfs.acyclic_spec if "acyclic" in str(case.get("arrangement", "")) else pathfs.standard_spec
+    wsp = pathaudit.Workspace(os.path.join(ctx.scratch, "ws-replay"), with_table=table_level, spec_fn=spec_fn)
     # absolute spellings recorded in the replay name the original workspace: re-root them
     orig_ws = case.get("workspace")
     if orig_ws and orig_ws in p:
         p = p.replace(orig_ws, wsp.ws)
     judge = pathaudit.Judge(wsp)
     audit = Audit.get()
-    base = wsp.root if base_kind == "direct" else wsp.lnroot
+    base = wsp.lnroot if base_kind in ("symlink", "relative-link-slash") else wsp.root
     if table_level:
         fn = table_call(wsp, base, entry, p)
         absolute_capable = entry.startswith(("scan", "row_count", "append"))
@@ -666,10 +893,34 @@ def replay(ctx, payload) -> int:
         fn = lambda: f(b, p)             # noqa: E731
         absolute_capable = False
     outcome, problems = pathaudit.run_case(wsp, judge, audit, entry, fn, p, base_kind, absolute_capable,
-                                           ignore_rules=("reject",) if entry.startswith(("gc:", "delete_files")) else ())
-    print(f"replay: {entry}({p!r}) root={base_kind} -> outcome {outcome}")
+                                           ignore_rules=("reject",) if entry.startswith(("gc:", "delete_files", "plain:")) else ())
+    print(f"replay: {entry}({p!r}) root={base_kind} arrangement={wsp.arrangement} -> outcome {outcome}")
     for pr in problems:
         print("replay: STILL FAILS", pr)
     if not problems:
         print("replay: passes now")
     return 1 if problems else 0
+
+
+def replay_random_tree(ctx, case: Dict[str, Any]) -> int:
+    """A runaway found on a random arrangement: rebuild that tree, list / resolve the string under the limits and the audit."""
+    from datashard.storage_backend import LocalStorageBackend
+    ws = os.path.realpath(tempfile.mkdtemp(prefix="ws-replay-rand-", dir=ctx.scratch))
+    spec = [(r, k, (t.replace("<ws>", ws) if k == "link" else (b"F" if k == "file" else None))) for r, k, t in case["tree"]]
+    pathfs.materialise(ws, spec)
+    root = os.path.join(ws, "r")
+    b = LocalStorageBackend(root)
+    audit = Audit.get()
+    p = case["path"]
+    fn = (lambda: b.list_files(p)) if case["entry"] == "list_files" else (lambda: b._resolve_path(p))
+    status, val = bounded.get_guard().run(f"{case['entry']}({p!r})", case, lambda: audit.record(fn))
+    audit.on = False
+    events = list(audit.events)
+    outside = [(ev, tgt) for ev, _p, tgt, _c in events if tgt and pathfs.under(ws, tgt) and not pathfs.under(root, tgt)
+               and ev in ("os.scandir", "os.listdir", "os.remove", "os.rename")]
+    print(f"replay: {case['entry']}({p!r}) on the recorded random tree -> {status} {val if status == 'runaway' else ''}")
+    if status == "runaway" or outside:
+        print("replay: STILL FAILS", {"status": status, "outside": outside[:4]})
+        return 1
+    print("replay: passes now")
+    return 0
